@@ -1039,6 +1039,50 @@ func (c *Ctx) ord8() {
 		}
 	}
 	tping.done(1, "ping slot drained, goroutines awaited, breakAll called")
+	// the wait group counts a goroutine before it is started: an Add that comes
+	// after the go statement lets Wait return while the goroutine still runs
+	wgp := c.acc("ORD-8", term, "WaitGroup.Add-precedes-each-go-statement")
+	for _, p := range c.Paths("ORD-8", term) {
+		if p.Start != term.Blocks[0] {
+			continue
+		}
+		adds := 0
+		for i := range p.Events {
+			e := &p.Events[i]
+			if e.Kind == pathx.KCall && stdName(e.Callee) == "(*sync.WaitGroup).Add" {
+				if k, ok := intConst(e.Args[len(e.Args)-1]); ok && k > 0 {
+					adds += int(k)
+				}
+			}
+			if e.Kind == pathx.KGo && e.Callee != nil {
+				done := false
+				for _, b := range e.Callee.Blocks {
+					for _, ins := range b.Instrs {
+						var cc *ssa.CallCommon
+						switch x := ins.(type) {
+						case *ssa.Defer:
+							cc = &x.Call
+						case *ssa.Call:
+							cc = &x.Call
+						}
+						if cc != nil && cc.StaticCallee() != nil && stdName(cc.StaticCallee()) == "(*sync.WaitGroup).Done" {
+							done = true
+						}
+					}
+				}
+				if !done {
+					continue
+				}
+				if adds > 0 {
+					adds--
+					wgp.pass()
+				} else {
+					wgp.fail(p, i, "a goroutine that reports to the wait group is started before the group counts it: Wait can return early, and termCallbacks ends while exchanges are still being answered")
+				}
+			}
+		}
+	}
+	wgp.done(2, "every counted goroutine is added before it is started")
 
 	// Close and Disconnect: the context is cancelled before connSem is awaited
 	for _, fn := range []*ssa.Function{c.Fn("ORD-8", "(*Client).Close"), disc} {
